@@ -564,3 +564,13 @@ func RaceRelease(addr any) { raceRelease(addr) }
 
 //go:norace
 func RaceReleaseMerge(addr any) { raceReleaseMerge(addr) }
+
+// Debugging reports whether the current execution records a trace.
+//
+//go:norace
+func Debugging() bool { return S != nil && S.Debug }
+
+// CallerSite is caller() for shims in other packages.
+//
+//go:norace
+func CallerSite(skip int) string { return caller(skip + 1) }
